@@ -605,6 +605,7 @@ class BaseMatcher:
             self.path = path
             self.expand_now = 0
 
+        self.early_stop_idx = None
         nb_start_nodes = self._create_start_nodes(use_edges=self.only_edges)
         if nb_start_nodes == 0:
             self.lattice_best = []
@@ -617,7 +618,6 @@ class BaseMatcher:
         iterator = range(1, len(path))
         if tqdm:
             iterator = tqdm(iterator)
-        self.early_stop_idx = None
         for obs_idx in iterator:
             if __debug__:
                 logger.debug("--- obs {} --- {} ---".format(obs_idx, self.path[obs_idx]))
